@@ -41,6 +41,12 @@ Definition items_ok (items : list (list tguard)) : bool :=
 Definition early_ok (early : list tguard) : bool :=
   existsb (fun g => match g with TgMapped => true | TgEq _ => false end) early.
 
+Definition items_complete (items : list (list tguard)) : bool :=
+  existsb (existsb (fun g => match g with TgMapped => true | TgEq _ => false end)) items &&
+  existsb (existsb (fun g => match g with TgEq k => k =? 0 | TgMapped => false end)) items.
+Definition early_only_mapped (early : list tguard) : bool :=
+  forallb (fun g => match g with TgMapped => true | TgEq _ => false end) early.
+
 (* ------------------------------------------------------------ PossibleBitFlip::calculate_heuristics *)
 Definition is_repeated_src (regsize addr : Z) : bool :=
   match find (fun e => fst e =? regsize) G_REPEAT with
